@@ -4,6 +4,7 @@
 package drv
 
 import (
+	"encoding/json"
 	"fmt"
 	"math/rand"
 	"os"
@@ -526,6 +527,22 @@ func (q *seqRun) opSchedule() {
 	if badVar {
 		vars["__jobID"] = "00000000-0000-0000-0000-000000000000"
 	}
+	viaHTTP := q.api != nil && q.r.Intn(2) == 0
+	if viaHTTP && q.o.RichVars {
+		// number LITERALS as a client may write them (not the shortest form, more digits than a float64 holds): whatever
+		// the API makes of them when the request is accepted is what it must still report after a restart
+		if vars == nil {
+			vars = map[string]interface{}{}
+		}
+		lits := []string{"1.10", "1E3", "12345678901234567890", "9007199254740993", "1e-9", "0.1000000000000000055511151231257827", "-0.0", "100", "2.50e+2"}
+		vars["literal"] = json.RawMessage(lits[q.r.Intn(len(lits))])
+		vars["nested"] = map[string]interface{}{"lit": json.RawMessage(lits[q.r.Intn(len(lits))]), "list": []interface{}{json.RawMessage(lits[q.r.Intn(len(lits))]), "x"}}
+		if q.r.Intn(6) == 0 {
+			// a number no float64 can hold: refused, or else handled so that the store stays loadable (checked by the restarts)
+			code, _, _ := q.api.ScheduleHTTP(p, map[string]interface{}{"huge": json.RawMessage("1e400")})
+			q.res.sit("C10", fmt.Sprintf("schedule request with the literal 1e400 answered %d", code))
+		}
+	}
 	predicted := q.m.Decide(p)
 	cfg := q.m.Cfg[p]
 	sitKey := fmt.Sprintf("%s R%d W%d canceledWaiters%d -> %s", classOf(spec), len(q.m.Running[p]), len(q.m.Waiting[p]), q.canceledUnstarted(p), predicted)
@@ -542,7 +559,7 @@ func (q *seqRun) opSchedule() {
 	callSeq := q.sys.Log.NextSeq()
 	t0 := time.Now()
 	var id, cls string
-	if q.api != nil && q.r.Intn(2) == 0 {
+	if viaHTTP {
 		id, cls = q.sys.ScheduleHTTP(0, q.api, p, vars)
 	} else {
 		id, cls = q.sys.Schedule(0, p, vars, fmt.Sprintf("user%d", q.r.Intn(3)))
